@@ -157,7 +157,7 @@ theorem bodyOps_mapped (x : Ctx) (td : TypeDef) (r : Option (List POp)) (h : bod
       rw [mapped_printTy]
       simp only [objectTy, tySites, fieldSites, plainField, node_builtin, bodySites, hk]
       rw [fieldSites_map]
-      simp [fieldSites, tySites_localLeaf, keySites, tySites]
+      simp [fieldSites, tySites_localLeaf, keySites]
     · exact .inl ⟨rfl, by simp [printed, hk, ht]⟩
   · -- interface
     cases ht : x.target.isInput <;> simp only [ht] at h <;> cases h
@@ -323,9 +323,9 @@ theorem preludeOps_mapped (doc : TsDoc) : mappedOps (preludeOps doc) = metadataS
     · by_cases h1 : td.name = "Query"
       · simp [hk, h1, typeKind_beq, plainField, fieldSites, tySites]
       · by_cases h2 : td.name = "Mutation"
-        · simp [hk, h1, h2, typeKind_beq, plainField, fieldSites, tySites]
+        · simp [hk, h2, typeKind_beq, plainField, fieldSites, tySites]
         · by_cases h3 : td.name = "Subscription"
-          · simp [hk, h1, h2, h3, typeKind_beq, plainField, fieldSites, tySites]
+          · simp [hk, h3, typeKind_beq, plainField, fieldSites, tySites]
           · simp [hk, h1, h2, h3, typeKind_beq]
     · simp [hk, typeKind_beq]
 
